@@ -4,10 +4,10 @@ for P in "$@"; do
   git -C /repo apply --check $P 2>/dev/null || { echo "$P: does not apply"; continue; }
   git -C /repo apply $P
   /verif/bin/extract /repo /verif/lean/GFS/Generated >/dev/null 2>&1
-  OUT=$(cd /verif/lean && lake build GFS.Props.C07Gen 2>&1)
-  FAILED=$(echo "$OUT" | grep -o "C07Gen.lean:[0-9]*" | sort -u | tr '\n' ' ')
+  OUT=$(cd /verif/lean && lake build GFS.Props.C07Gen GFS.Props.C08Gen GFS.Props.C02Gen 2>&1)
+  FAILED=$(echo "$OUT" | grep -o "C0[278]Gen.lean:[0-9]*" | sort -u | tr '\n' ' ')
   echo "$P: ${FAILED:-no theorem fails}"
   git -C /repo checkout -- .
 done
 /verif/bin/extract /repo /verif/lean/GFS/Generated >/dev/null 2>&1
-(cd /verif && git checkout -- lean/GFS/Generated 2>/dev/null; cd lean && lake build GFS.Props.C07Gen >/dev/null 2>&1)
+(cd /verif && git checkout -- lean/GFS/Generated 2>/dev/null; cd lean && lake build GFS.Props.C07Gen GFS.Props.C08Gen GFS.Props.C02Gen >/dev/null 2>&1)
